@@ -549,7 +549,15 @@ fn compile_to_ir_using_alpha(
 		{
 			let outputpath = {
 				let mut path = out_dir.to_path_buf();
-				path.push(filepath.clone());
+				// Stay inside the output directory, even if the source
+				// file is given as an absolute path or through `..`.
+				for component in filepath.components()
+				{
+					if let std::path::Component::Normal(x) = component
+					{
+						path.push(x);
+					}
+				}
 				path.set_extension("pn.ll");
 				path
 			};
